@@ -2,6 +2,7 @@
 from pyubx2 import UBXMessage
 from pyubx2 import exceptions as ube
 
+import common
 import impl
 import msggen
 import sweep
@@ -82,7 +83,7 @@ def run(ctx):
     C16_BAD = {(0, "CFG-FIXSEED"), (1, "CFG-FIXSEED"), (0, "CFG-TP"), (1, "CFG-TP"), (0, "FOO-BAR"), (1, "CFG-NVS"),
                (1, "CFG-NMEAv0"), (1, "CFG-NMEAvX"), (0, "UBX-NOMINAL"), (0, "RXM-PMP-V0"), (0, "RXM-PMP-V1")}
     for mode, name, d, key, bf, kw, an in cases:
-        inp = {"op": "BUILD", "mode": mode, "name": name, "bf": bf, "kw": repr(kw)[:200]}
+        inp = {"op": "BUILD", "mode": mode, "name": name, "bf": bf, "kw": common.srepr(kw, 200)}
         try:
             with impl.quiet():
                 m = UBXMessage(key[0:1], key[1:2], mode, parsebitfield=bf, **kw)
@@ -113,13 +114,13 @@ def run(ctx):
             scale = t[1] if t else None
             if k in kw:
                 if not near(kw[k], got, scale) and not k.startswith("reserved"):
-                    ctx.fail("field-does-not-hold-supplied-value", dict(inp, attribute=k), repr(kw[k])[:60], repr(got)[:60])
+                    ctx.fail("field-does-not-hold-supplied-value", dict(inp, attribute=k), common.srepr(kw[k], 60), common.srepr(got, 60))
                     ctx.failures[-1]["ctx"] = (mode, name, used, kw)
                     break
             else:
                 from props.c03 import is_nominal
                 if not is_nominal(got) and not merged_hp(k, kw):
-                    ctx.fail("other-field-altered", dict(inp, attribute=k), "nominal", repr(got)[:60])
+                    ctx.fail("other-field-altered", dict(inp, attribute=k), "nominal", common.srepr(got, 60))
                     ctx.failures[-1]["ctx"] = (mode, name, used, kw)
                     break
 
